@@ -172,6 +172,89 @@ def check_other_routes(rep, cross, cap):
         rep.absorb(ex)
 
 
+def check_visited_balance(rep, cross):
+    """js_value_to_json_with_visited (JSON.stringify, host conversion) detects cycles with a set of the objects on the CURRENT path: on every
+    path that returns Ok for an object, the object's id was inserted once and removed again - otherwise a shared, acyclic sub-object is
+    reported as circular.  Recursive calls are abstracted (they leave the set as they found it when they return Ok: this contract)."""
+    ex = common.executor(unwind=3)
+    ex.auto_havoc = True
+
+    def ev(kind):
+        def h(e, s, c):
+            s.event(kind)
+            return e.ret(s, c, Bool(z3.Bool('already_on_path')) if kind == 'vcontains' else Bool(z3.BoolVal(True)))
+        return h
+    ex.overrides.append((re.compile(r'^HashSet::contains$'), ev('vcontains')))
+    ex.overrides.append((re.compile(r'^HashSet::insert$'), ev('vinsert')))
+    ex.overrides.append((re.compile(r'^HashSet::remove$'), ev('vremove')))
+    cands = [n for n in ex.mir.fn_index if n.endswith('js_value_to_json_with_visited') and '{closure' not in n]
+    if len(cands) != 1:
+        rep.inconc('cannot locate js_value_to_json_with_visited in the MIR dump (%d candidates)' % len(cands))
+        return
+
+    def rec(e, s, c):
+        s.event('recurse')
+        e.havoc_used.add('js_value_to_json_with_visited (recursive call: arbitrary result, the visited set as found)')
+        return e.ret(s, c, e.fresh(s, c.dest_ty, 'rec'))
+    ex.overrides.append((re.compile(r'js_value_to_json_with_visited$'), rec))
+    st = State()
+    val = st.alloc(EnumV('JsValue', 6, {6: {0: Opaque('Gc<JsObject>', z3.Int('$obj'))}}))
+    vis = st.alloc(Opaque('FxHashSet<usize>'))
+    ex.call_function(st, cands[0], [Ref(val), Ref(vis)])
+    ends = ex.run(st, max_paths=5000)
+    n_ok = 0
+    bad = None
+    for e in ends:
+        if e.status in ('bound', 'panic'):
+            continue
+        if e.status != 'return':
+            rep.inconc('js_value_to_json_with_visited: %s %s' % (e.status, e.detail[:140]))
+            continue
+        if not (isinstance(e.value, EnumV) and e.value.discr == 0):
+            continue
+        n_ok += 1
+        evs = [x[0] for x in e.st.events if x[0] in ('vinsert', 'vremove')]
+        if evs != ['vinsert', 'vremove'] and bad is None:
+            bad = evs
+    what = 'js_value_to_json_with_visited: every Ok path for an object inserts its id once and removes it again'
+    rep.obligation(what, 'sat' if bad is not None else 'unsat', '%d Ok paths (loops unrolled 3 times), object of any kind' % n_ok, 0.0)
+    progs = [('const e = []; JSON.stringify({first: e, second: e, deep: [[e]]})', '{"deep":[[[]]],"first":[],"second":[]}'),
+             ('const s = {k: 1}; JSON.stringify([s, s, {in: s}])', '[{"k":1},{"k":1},{"in":{"k":1}}]'),
+             ('const a = [1]; JSON.stringify({x: a, y: a})', '{"x":[1],"y":[1]}')]
+    outs = driver.replay([{'cmd': 'eval', 'src': p_} for p_, _ in progs])
+    wrong = []
+    for (p_, want), o in zip(progs, outs):
+        rep.validated += 1
+        got = (o.get('value') or {}).get('v', o.get('error'))
+        if got != want:
+            wrong.append((p_, got, want))
+    if (bad is not None or wrong) and not rep.seen('C16/js_value_to_json/visited-set-not-restored'):
+        p = rep.write_replay('visited', {'events_on_an_ok_path': bad, 'programs': wrong})
+        rep.violation('C16/js_value_to_json/visited-set-not-restored', 'js_value_to_json_with_visited has an Ok path with visited-set events %r (expected insert then remove)%s' % (
+            bad, '; %s gives %r, expected %r' % wrong[0] if wrong else ' (symbolic counterexample)'), p)
+    if n_ok == 0:
+        rep.inconc('js_value_to_json_with_visited: no Ok path (vacuity)')
+    rep.vacuity.append('js_value_to_json_with_visited: %d Ok paths' % n_ok)
+    rep.sample({'kernel': 'js_value_to_json_with_visited visited-set balance', 'ok_paths': n_ok})
+    rep.absorb(ex)
+
+
+def check_json_route_vectors(rep, vecs):
+    """replay route: a member written by JSON.parse / create_from_json under key K is found by `o[K]` and by the host API, for the boundary spellings"""
+    keys = [k for k in vecs if k and all(ch in '0123456789+-.e ' for ch in k)]
+    srcs = ["const o = JSON.parse('{%s:7}'); String(o[%s])" % (json.dumps(k), json.dumps(k)) for k in keys]
+    outs = driver.replay([{'cmd': 'eval', 'src': x} for x in srcs] + [{'cmd': 'api_key', 's': k} for k in keys])
+    n = len(keys)
+    for i, k in enumerate(keys):
+        rep.validated += 2
+        got = (outs[i].get('value') or {}).get('v')
+        api = outs[n + i]
+        api_bad = api.get('script_sees_host_write') is False or api.get('host_sees_script_write') is False
+        if (got != '7' or api_bad) and not rep.seen(KF_JSON_KEYS):
+            p = rep.write_replay('json-key', {'cmd': 'eval', 'src': srcs[i], 'expected': '7', 'observed': got, 'api': api})
+            rep.violation(KF_JSON_KEYS, 'key %r: %s gives %r (expected 7); api round trip: %r' % (k, srcs[i], got, api), p)
+
+
 def run(rep):
     cap = CAP[rep.tier]
     rep.bounds = dict(string_bytes=cap, alphabet=ALPHA.decode(), numbers='every f64 (see C15 b)')
@@ -327,6 +410,8 @@ def run(rep):
         rep.sample({'kernel': 'number keys: two routes', 'feasible_pairs': npair})
     rep.absorb(ex2)
     check_other_routes(rep, cross, cap)
+    check_json_route_vectors(rep, vecs)
+    check_visited_balance(rep, cross)
     rep.cross = driver.cross_check(cross, 300, 'ALL', rep.tier, rep.seed)
     rep.extra['cross_checked_obligations'] = len(cross)
 
